@@ -6,6 +6,7 @@ import D2P.Props.C02BodyStray
 import D2P.Props.C02Notes
 import D2P.Props.C02Deep
 import D2P.Props.C02DeepCells
+import D2P.Props.C02Post
 /-!
 # Open findings, as kernel-checked witnesses
 
@@ -121,6 +122,7 @@ def sdtDoc : Xml :=
       el 14 "customXml" [] none [p 15 [r 16 [t 17 "deep"]]]]],
     p 20 [r 21 [t 22 "z"]]]
 def cfgNoDup : PartCfg := { html := false, dup := false, rels := [] }
+def cfgDup : PartCfg := { html := false, dup := true, rels := [] }
 
 /-- non-vacuity of `C02_deep_once_in_order`: the hypotheses hold, and both sides of its conclusion evaluate to the
 paragraph identities in document order -/
@@ -159,6 +161,27 @@ theorem deepC_witness :
     deepCPartOK tblDoc = true ∧
     tblDoc.kids.flatMap (fun k => if deepC 8 k then outC 8 k else []) = [1, 14, 24, 30, 43, 50] ∧
     (match newDepthCollector cfgNoDup [] tblDoc with | .ok dc => elemsOf (leafParsL dc.root) | .error _ => []) = [1, 14, 24, 30, 43, 50] := by
+  decide +kernel
+
+/-- a paragraph whose run holds a text box with a paragraph and a table, and a hyperlink whose run holds a text box -/
+def nestDoc : Xml :=
+  el 0 "body" [] none [p 1 [r 2 [t 3 "pre ",
+      el 8 "txbxContent" [] none [p 9 [r 10 [t 11 "boxed"]],
+        tbl 60 [tr 61 [tc 62 [] [p 64 [r 65 [t 66 "cell"]]]]]], t 12 " post"],
+      el 70 "hyperlink" [(⟨some (lit "R"), lit "id"⟩, lit "rId9")] none [r 71 [el 72 "txbxContent" [] none [p 73 [r 74 [t 75 "in link"]]]]]],
+    p 20 [r 21 [t 22 "z"]]]
+
+/-- `C02_post_part` on a part with paragraphs nested in a paragraph: the records are the paragraphs in the order of their
+closing tags (the text box's paragraphs 9 and 64 before the paragraph 1 that encloses them; nothing for paragraph 73 below
+the link); the paragraphs that enclose nothing (9, 64, 20) are in document order -/
+theorem post_witness :
+    post nestDoc = [9, 64, 1, 20] ∧ pre nestDoc = [1, 9, 64, 20] ∧ leafIds nestDoc = [9, 64, 20] ∧
+    (match newDepthCollector cfgNoDup [] nestDoc with | .ok dc => elemsOf (leafParsL dc.root) | .error _ => []) = [9, 64, 1, 20] ∧
+    -- and the hypothesis of `C02_post_document_order` holds for the table document of `deepC_witness`
+    (leafIds tblDoc == pre tblDoc) = true ∧ post tblDoc = [1, 14, 24, 30, 43, 50] ∧
+    -- `C02_post_part_dup`: no cell of `tblDoc` continues a vertical merge; with duplication ON the span's copy carries no identity
+    vfree tblDoc = true ∧
+    (match newDepthCollector cfgDup [] tblDoc with | .ok dc => elemsOf (leafParsL dc.root) | .error _ => []) = [1, 14, 24, 30, 43, 50] := by
   decide +kernel
 
 end D2P.Ex
